@@ -42,9 +42,11 @@ CHECK_DEADLOCK FALSE
 MODES = {
     "server": dict(base_url="/"),
     "difftool": dict(difftool_args=dict(base="a.ipynb", remote="b.ipynb"), closable=True, base_url="/"),
+    "difftool_refs": dict(difftool_args=dict(base="<stream a.ipynb>", remote="<stream b.ipynb>"), closable=True, base_url="/"),
     "mergetool_out": dict(mergetool_args=dict(base="a.ipynb", local="b.ipynb", remote="c.ipynb"), outputfilename="out.ipynb",
                           closable=True, base_url="/"),
     "mergetool": dict(mergetool_args=dict(base="a.ipynb", local="b.ipynb", remote="c.ipynb"), closable=True, base_url="/"),
+    "mergetool_badfile": dict(mergetool_args=dict(base="a.ipynb", local="notnb.txt", remote="c.ipynb"), closable=True, base_url="/"),
     "mergeweb_out": dict(outputfilename="out.ipynb", closable=False, base_url="/nbdime/"),
 }
 NB = {}
@@ -69,7 +71,8 @@ def build_notebooks():
 
 def file_bytes(cid):
     if cid == 4:
-        return b"this is not a notebook\n"
+        # not a notebook; it starts with blank lines like a file git left with conflict markers further down
+        return b"\n" * 12 + b"<<<<<<< HEAD\nthis is not a notebook\n=======\nnor this\n>>>>>>> other\n"
     return (json.dumps(NB[cid], indent=1, sort_keys=True) + "\n").encode("utf8")
 
 
@@ -139,6 +142,17 @@ async def _serve(mode, d, reqs):
     from tornado.httpclient import AsyncHTTPClient, HTTPRequest
     from nbdime.webapp.nbdimeserver import make_app
     params = copy.deepcopy(MODES[mode])
+    if mode == "difftool_refs":
+        # what nbdiff-web <ref> <ref> passes: text streams with a name (git blobs / open working tree files)
+        class NamedStream(io.StringIO):
+            name = ""
+        streams = {}
+        for k, fn in (("base", "a.ipynb"), ("remote", "b.ipynb")):
+            with io.open(os.path.join(d, fn), encoding="utf8") as f:
+                st = NamedStream(f.read())
+            st.name = "%s (HEAD~1)" % fn if k == "base" else "%s (HEAD)" % fn
+            streams[k] = st
+        params["difftool_args"] = streams
     prefix = params.get("base_url", "/")
     app = make_app(cwd=d, **params)
     sockets = netutil.bind_sockets(0, "127.0.0.1")
@@ -326,7 +340,7 @@ def run():
             if ndiff > (400 if chk.quick else 4000):
                 continue
             pair = {"diff_ab": (1, 2), "diff_bc": (2, 3)}.get(req, (1, 2))
-            if mode == "difftool":
+            if mode in ("difftool", "difftool_refs"):
                 pair = (1, 2)
             rd = lambda c: to_plain(nbformat.reads(file_bytes(c).decode("utf8"), as_version=4))  # noqa
             ev = {"tid": "d%d-%s-%s" % (ndiff, mode, req), "a": enc(rd(pair[0])), "b": enc(rd(pair[1])),
